@@ -185,7 +185,11 @@ func (c *c20Case) seamParks(who c20Caller) bool {
 		return !c.exclRestore
 	}
 	if who.inClear {
-		return !c.exclClear
+		// F-C20-2 (known) is the cleanup of a request that has *already been
+		// released* racing with the next admission. While the pending flag is still
+		// held the cleanup is not that shape: a refusal that completes before the
+		// release must still be cleaned up by it, so those accesses stay parkable.
+		return !c.exclClear || (c.m != nil && c.m.reloadPending.Load())
 	}
 	return false
 }
@@ -208,8 +212,13 @@ func (c *c20Case) progGet() (byte, string, error) {
 		c.sched.yield(fmt.Sprintf("%s:read", who.role), who)
 	}
 	c.mu.Lock()
-	defer c.mu.Unlock()
-	return c.code, c.msg, nil
+	code, msg := c.code, c.msg
+	c.mu.Unlock()
+	if c.seamParks(who) {
+		// preempted between the read and whatever the caller does with the value
+		c.sched.yield(fmt.Sprintf("%s:read-return", who.role), who)
+	}
+	return code, msg, nil
 }
 
 func (c *c20Case) onBegin(who c20Caller) {
